@@ -168,7 +168,7 @@ CHECKS = {
         "title": "Emitted events report the amounts that actually moved",
         "level": "exploration",
         "technique": "property-based testing (rapid): typed events parsed from block / message results and compared with supply, ledger and reference-model deltas",
-        "tests": [T("TestC18Mint", 800, 4000), T("TestC18Distribution", 500, 2500), T("TestC18Withdraw", 400, 2000, steps=50)],
+        "tests": [T("TestC18Mint", 800, 4000), T("TestC18Distribution", 500, 2500), T("TestC18Withdraw", 200, 2000, qshards=2, steps=50)],
         "rule": "three generators: (a) minter configurations x block partitions as C02 - the Mint event amount must equal the block's supply delta; (b) sub-distributor configurations x inflows as C04 - per sub-distributor and block the Distribution and DistributionBurn event amounts must add up to the inflow minus what is left in MAIN and each event must equal share x inflow of the reference model (10^-6); (c) the vesting state machine as C05 - every withdraw-all and every implicit withdrawal inside a send must emit exactly one WithdrawAvailable per pool that paid > 0, carrying that pool's amount + denomination, none for pools that paid nothing. "
                 "Non-trivial = (a) at least two blocks minted, (b) at least three distribution/burn events, (c) an owner with at least two pools paying in one withdrawal. Distinct = SHA-256 of the case.",
         "min_nontrivial_fraction": 0.2,
